@@ -68,6 +68,11 @@ type hop struct {
 type tv struct {
 	Ref string `json:"ref,omitempty"` // "{{ ref }}" when non-empty
 	Lit string `json:"lit"`
+	// how an entry of a role's defaults/vars block is written in the document: "" plain scalar,
+	// "public" = !public {value: <text>, type: ..., label: ...}, "public_novalue" = !public block
+	// without a value (defines the empty string, as coded), "other" = an untagged mapping (not a
+	// definition). Ignored for task class maps, which are not read from a document.
+	Form string `json:"form,omitempty"`
 }
 
 type roleIn struct {
@@ -183,6 +188,51 @@ func rmapTerm(m map[string]tv) string {
 	return gen.List(it)
 }
 
+// wmapTerm: a defaults/vars block as written (wmap)
+func wmapTerm(m map[string]tv) string {
+	ks := sortedKeys(m)
+	it := make([]string, len(ks))
+	for i, k := range ks {
+		var e string
+		switch m[k].Form {
+		case "public":
+			e = "WPublic (Some (" + tvTerm(m[k]) + "))"
+		case "public_novalue":
+			e = "WPublic None"
+		case "other":
+			e = "WOther"
+		default:
+			e = "WPlain (" + tvTerm(m[k]) + ")"
+		}
+		it[i] = gen.Pair(gen.Str(k), e)
+	}
+	return gen.List(it)
+}
+
+// docMap: a defaults/vars block for the document; the annotated entries carry a marker that
+// publicTags turns into the !public tag after JSON encoding
+func docMap(m map[string]tv) map[string]any {
+	d := map[string]any{}
+	for k, v := range m {
+		switch v.Form {
+		case "public":
+			d[k] = map[string]any{"__public__": true, "value": tvText(v), "type": "string", "label": "L " + k}
+		case "public_novalue":
+			d[k] = map[string]any{"__public__": true, "type": "string", "label": "L " + k}
+		case "other":
+			d[k] = map[string]any{"value": tvText(v)}
+		default:
+			d[k] = tvText(v)
+		}
+	}
+	return d
+}
+
+// publicTags: JSON is YAML, but JSON has no tags
+func publicTags(doc []byte) []byte {
+	return []byte(strings.ReplaceAll(string(doc), `:{"__public__":true,`, `: !public {`))
+}
+
 func lvlTerm(l lvl) string {
 	return fmt.Sprintf("(mkLevel %s %s %s)", gen.KVs(l.D), gen.KVs(l.V), gen.KVs(l.U))
 }
@@ -200,10 +250,10 @@ func roleTerm(r *roleIn) string {
 		ch[i] = roleTerm(c)
 	}
 	if r.Sub != nil {
-		return fmt.Sprintf("(RIncl %s %s %s %s %s %s)", nm, rmapTerm(r.Defaults), rmapTerm(r.Vars),
-			rmapTerm(r.Sub.Defaults), rmapTerm(r.Sub.Vars), gen.List(ch))
+		return fmt.Sprintf("(RIncl %s %s %s %s %s %s)", nm, wmapTerm(r.Defaults), wmapTerm(r.Vars),
+			wmapTerm(r.Sub.Defaults), wmapTerm(r.Sub.Vars), gen.List(ch))
 	}
-	return fmt.Sprintf("(RRole %s %s %s %s)", nm, rmapTerm(r.Defaults), rmapTerm(r.Vars), gen.List(ch))
+	return fmt.Sprintf("(RRole %s %s %s %s)", nm, wmapTerm(r.Defaults), wmapTerm(r.Vars), gen.List(ch))
 }
 
 // rangeTerm: the irange of an iterator as written in its document (see roleDoc)
@@ -467,18 +517,10 @@ func roleDoc(r *roleIn) map[string]any {
 		d["name"] = "r"
 	}
 	if r.Defaults != nil {
-		m := smap{}
-		for k, v := range r.Defaults {
-			m[k] = tvText(v)
-		}
-		d["defaults"] = m
+		d["defaults"] = docMap(r.Defaults)
 	}
 	if r.Vars != nil {
-		m := smap{}
-		for k, v := range r.Vars {
-			m[k] = tvText(v)
-		}
-		d["vars"] = m
+		d["vars"] = docMap(r.Vars)
 	}
 	switch {
 	case r.Sub != nil:
@@ -491,7 +533,7 @@ func roleDoc(r *roleIn) map[string]any {
 		if err != nil {
 			panic(err)
 		}
-		subDocs[name] = doc
+		subDocs[name] = publicTags(doc)
 		d["include"] = name
 	case len(r.Children) > 0:
 		var ch []any
@@ -626,6 +668,7 @@ func loadTree(tmp string, in input) (workflow.Role, lvl, error) {
 	if err != nil {
 		panic(err)
 	}
+	doc = publicTags(doc)
 	hidOf = map[workflow.Role]lvl{}
 	root, err := workflow.VerifC14LoadYAMLInc(doc, subDocs, pa, &dummyRepo, smap{}, func(inc workflow.Role) {
 		hidOf[inc] = lvl{copyMap(inc.GetDefaults().Raw()), copyMap(inc.GetVars().Raw()), copyMap(inc.GetUserVars().Raw())}
@@ -909,9 +952,29 @@ func genRmap(r *gen.Rand, num, den int, refNum int) map[string]tv {
 }
 
 // outer: the variables of the iterators whose template the role is generated in (nearest last)
+// genWmap: a defaults/vars block of a role, with the form each entry is written in (30% annotated
+// with a value - the empty text as likely as in the plain form -, 5% annotated without a value,
+// 5% something that is not a definition)
+func genWmap(r *gen.Rand, num, den int, refNum int) map[string]tv {
+	m := genRmap(r, num, den, refNum)
+	for _, k := range sortedKeys(m) {
+		e := m[k]
+		switch x := r.Intn(20); {
+		case x < 6:
+			e.Form = "public"
+		case x == 6:
+			e.Form = "public_novalue"
+		case x == 7:
+			e.Form = "other"
+		}
+		m[k] = e
+	}
+	return m
+}
+
 func genRole(r *gen.Rand, depth, maxDepth int, budget *int, outer []string) *roleIn {
 	*budget--
-	ro := &roleIn{Defaults: genRmap(r, 1, 3, 2), Vars: genRmap(r, 1, 3, 2)}
+	ro := &roleIn{Defaults: genWmap(r, 1, 3, 2), Vars: genWmap(r, 1, 3, 2)}
 	if r.Chance(1, 4) {
 		ro.NameRef = r.Pick(alphabet)
 	}
@@ -960,7 +1023,7 @@ func genRole(r *gen.Rand, depth, maxDepth int, budget *int, outer []string) *rol
 			if len(c.Children) > 0 && r.Chance(3, 10) {
 				// include role: c becomes the root of a sub-workflow, the include role gets maps of
 				// its own (dense: they are what the included subtree must see as the nearest ancestor's)
-				c = &roleIn{NameRef: c.NameRef, Defaults: genRmap(r, 1, 2, 2), Vars: genRmap(r, 1, 2, 2),
+				c = &roleIn{NameRef: c.NameRef, Defaults: genWmap(r, 1, 2, 2), Vars: genWmap(r, 1, 2, 2),
 					Sub: &roleIn{Defaults: c.Defaults, Vars: c.Vars, Children: c.Children}}
 				if it == nil && r.Chance(1, 3) {
 					it = &roleIn{IterVar: "i", IterVals: []string{r.Pick(values), r.Pick(values)}[:r.Range(1, 2)]}
@@ -1097,6 +1160,16 @@ func corpus() []struct {
 							{IterVar: "b", IterItems: []tv{{Ref: "i"}, {Lit: "x"}},
 								Tpl: &roleIn{Leaf: "task", Defaults: map[string]tv{"d": {Ref: "b"}}}}}}}}},
 			Ops: []hop{{Addr: []int{0, 0}, Key: "a", Val: sp("1")}}}},
+		// the forms a definition is written in: an EMPTY text in the annotated !public form (vars and
+		// defaults) must hide the non-empty values of the same role's defaults, of the ancestors and
+		// of the environment, like the plain empty scalar next to it; a !public block without a value;
+		// an untagged mapping, which is not a definition
+		{"tree", input{Env: &lvl{D: smap{"a": "z", "b": "z", "c": "z", "d": "z"}, V: smap{"a": "1"}, U: e},
+			Tree: &roleIn{Defaults: map[string]tv{"a": {Lit: "y", Form: "public"}, "b": {Lit: "y"}, "c": {Lit: "y"}, "d": {Lit: "y", Form: "other"}},
+				Vars: map[string]tv{"b": {Lit: "y", Form: "public"}},
+				Children: []*roleIn{{Defaults: map[string]tv{"a": {Lit: "x"}, "c": {Lit: "", Form: "public"}},
+					Vars: map[string]tv{"a": {Lit: "", Form: "public"}, "b": {Lit: ""}, "d": {Form: "public_novalue"}},
+					Children: []*roleIn{{Leaf: "task", Defaults: map[string]tv{"b": {Lit: "", Form: "public"}}, Vars: map[string]tv{"c": {Ref: "a", Form: "public"}}}}}}}}},
 	}
 }
 
